@@ -22,6 +22,8 @@ NAME = "repeat"
 # the execution's determinism is the property under test here: the harness self-check covers the
 # plan generator only, and the event log holds nothing derived from results
 DETERMINISM = "plan"
+# a difference between executions of the same plan is a violation when observed (see batch.run_check)
+OBSERVED_IS_VIOLATION = True
 PROPS = ("C18",)
 CHUNK = {"quick": 3, "thorough": 8}
 PENDING_FACTOR = 1
@@ -138,9 +140,33 @@ def execute(plan, focus, trace=False):
 
 
 def _execute(plan, focus, trace, child):
-    from ..isolate import forked
-    res, lines = forked(_execute_here, plan, tuple(focus), child)
-    return Ctx.rebuild(focus, res, lines, trace=trace)
+    """One evaluation = one fresh interpreter (same start as a replay), so that even allocator- and
+    collector-dependent behaviour (e.g. a memo keyed by the id() of a dead object) is a function of the
+    plan and replays."""
+    d = mk.scratch_dir()
+    try:
+        path = os.path.join(d, "plan.json")
+        with open(path, "w") as f:
+            f.write(jdump({"plan": plan, "focus": sorted(focus), "child": child}))
+        env = dict(os.environ)
+        env["PYTHONHASHSEED"] = os.environ.get("PYTHONHASHSEED", "0")
+        r = subprocess.run([sys.executable, "-m", "qsim.cli", "repeat-exec", path], cwd=boot.VERIF_DIR, env=env,
+                           capture_output=True, text=True, timeout=1800)
+        if r.returncode != 0:
+            raise boot.HarnessError("repeat-exec failed: %s" % r.stderr[-800:])
+        doc = json.loads(r.stdout.strip().splitlines()[-1])
+    finally:
+        shutil.rmtree(d, ignore_errors=True)
+    return Ctx.rebuild(focus, doc["res"], doc["lines"], trace=trace)
+
+
+def repeat_exec_main(path):
+    boot.boot()
+    with open(path) as f:
+        doc = json.load(f)
+    res, lines = _execute_here(doc["plan"], tuple(doc["focus"]), doc["child"])
+    print(jdump({"res": res, "lines": lines}))
+    return 0
 
 
 def _execute_here(plan, focus, child):
@@ -183,8 +209,17 @@ def _run(plan, ctx, child):
             m2["assets"][sym] = {"rows": [[r[0]] + [(None if x is None else mk.r4(x * 3.0 + 1.0)) for x in r[1:6]] + [r[6]]
                                           for r in a["rows"]]}
         sl.run_session(plan["others"][0] if plan["others"] else cfg, m2, monitors=False)
-        sl.run_session(cfg, m2, monitors=False)
-        return plain_digest(cfg, market, uuid_seed=us + 4)
+        worst = None
+        # several cycles "session on the other data, then the real one": whether a dead object's identity is
+        # reused by a new one depends on the allocator, so one cycle alone may not show a memo keyed that way
+        for k in range(3):
+            sl.run_session(cfg, m2, monitors=False)
+            got = plain_digest(cfg, market, uuid_seed=us + 4 + k)
+            if worst is None or got[0] != first[0]:
+                worst = got
+            if k == 0:
+                first = got
+        return worst
     d5, p5 = forked(variant_e)
     ctx.fault("other_market_session_before")
     base, base_parts = plain_digest(cfg, market, uuid_seed=us)
